@@ -91,7 +91,7 @@ func maskIDs(toks []xml.Token) (masked []xml.Token, generated int) {
 			if depth == 0 {
 				as := append([]xml.Attr(nil), s.Attr...)
 				for i := range as {
-					if as[i].Name.Local == "id" && hex16.MatchString(as[i].Value) {
+					if as[i].Name.Space == "" && as[i].Name.Local == "id" && hex16.MatchString(as[i].Value) {
 						as[i].Value = "ID#"
 						generated++
 					}
@@ -198,13 +198,16 @@ func expected(ns, from string, denoted []xml.Token) ([]xml.Token, error) {
 	var as []xml.Attr
 	hasID, hasFrom := false, false
 	for _, a := range s.Attr {
-		if (a.Name.Local == "id" || a.Name.Local == "from") && a.Value == "" {
+		// the stanza's id / from are the attributes WITHOUT a namespace (round E: full
+		// names; {urn:x}id or xml:id is some other attribute and is kept as it is)
+		plain := a.Name.Space == ""
+		if plain && (a.Name.Local == "id" || a.Name.Local == "from") && a.Value == "" {
 			continue
 		}
-		if a.Name.Local == "id" {
+		if plain && a.Name.Local == "id" {
 			hasID = true
 		}
-		if a.Name.Local == "from" {
+		if plain && a.Name.Local == "from" {
 			hasFrom = true
 		}
 		as = append(as, a)
